@@ -70,10 +70,8 @@ func (w *verifWorld20) op(k int, label string) {
 	case 7:
 		_ = w.t.ChannelsForPeer(p)
 	case 8:
-		// graphsync opens a request of ours that carries a data-transfer request (a pull for chC)
-		req := verifArbitraryRequest(label + ".oreq")
-		req.TransferId = 3
-		w.t.gsOutgoingRequestHook(p, verifReqWith(w.rC, req), &verifActions{})
+		// (the outgoing-request hook is only ever run by graphsync from inside Request: see op 0)
+		_ = w.t.UseStore(w.chB, ipld.LinkSystem{})
 	case 9:
 		w.t.gsIncomingBlockHook(p, &verifRespData{id: w.rA}, verifArbitraryBlock(), &verifActions{})
 	case 10:
